@@ -210,11 +210,12 @@ def r_symbols(ctx):
 
 def check(ctx):
     from . import c04
-    c04.group_rule(ctx, 'R14.8', r'^debug::', 'debug-symbol plumbing (tracking, marker ids, text extraction, value mapping): full call traces', 10)
+    c04.group_rule(ctx, 'R14.8', r'^(debug::.*|error::Span::to_slice)$', 'debug-symbol plumbing (tracking, marker ids, text extraction by Span::to_slice, value mapping): full call traces', 11)
     r_symbols(ctx)
     r_neutral(ctx)
     r_same_key(ctx)
     r_ids(ctx)
     from . import c07
     c07.r_reconstruct(ctx)
+    c07.r_uint_tables(ctx, only={'bit_width', 'from_bit_width', 'structural-type', 'as_integer:shifts'})   # destruct::as_integer shifts / widths used when a dbg! value is rebuilt
     r_map_value(ctx)
